@@ -8,7 +8,7 @@ CONSTANTS
   Faults = {}
   MaxFaults = 0
   CC0 = 14
-  EarlyPMT = FALSE
+  EarlyPMT = TRUE
   StartLike = FALSE
   Dev = {}
 INVARIANTS C20_RewindFresh
